@@ -39,7 +39,7 @@ theorem step_refines (a : ArraySized) (op : Spec.SSeq.Op Elem) (m : Mem) (h : a.
     (a.refusal op m = some .errMaxCapacity → a.AtLimit) := by
   cases op with
   | add x =>
-    rcases add_spec a x m h hw with ⟨h1, h2, h3, h4, h5, h6, h7⟩ | ⟨h1, h2, h3, h4, h5, h6⟩
+    rcases add_spec a x m h hw with ⟨h1, h2, h3, h4, h5, h6, h7, _⟩ | ⟨h1, h2, h3, h4, h5, h6, _⟩
     · have hr : a.refusal (.add x) m = none := by simp [refusal, step, h1]
       rw [hr]
       simp only [step, Spec.SSeq.step, Spec.SSeq.add, h1, h3]
@@ -55,7 +55,7 @@ theorem step_refines (a : ArraySized) (op : Spec.SSeq.Op Elem) (m : Mem) (h : a.
         exact ⟨trivial, trivial, h, trivial, trivial, h3, fun _ => trivial, nofun, fun _ => h6 h1⟩
   | addAt x i =>
     by_cases hi : i ≤ a.size
-    · rcases addAt_spec a x i m h hw hi with ⟨h1, h2, h3, h4, h5, h6, h7⟩ | ⟨h1, h2, h3, h4, h5, h6⟩
+    · rcases addAt_spec a x i m h hw hi with ⟨h1, h2, h3, h4, h5, h6, h7, _⟩ | ⟨h1, h2, h3, h4, h5, h6, _⟩
       · have hr : a.refusal (.addAt x i) m = none := by simp [refusal, step, h1]
         rw [hr]
         simp only [step, Spec.SSeq.step, Spec.SSeq.addAt, abs_length, hi, if_true, h1, h3]
@@ -405,7 +405,7 @@ theorem new_ok (dl cap : Nat) (grow : Nat → Nat) (exGe : Nat → Bool) (m m' :
     (hnew : ArraySized.new dl cap grow exGe m = (.ok, some a, m')) :
     a.Inv ∧ a.abs = [] ∧ a.dataLen = dl ∧ a.capacity = cap ∧ a.grow = grow ∧
     m'.live = m.live + 2 ∧ m'.fault = m.fault ∧ a.capacity * a.dataLen ≤ CC_MAX_ELEMENTS ∧
-    a.capacity * a.dataLen < 2 ^ 64 := by
+    a.capacity * a.dataLen < 2 ^ 64 ∧ m'.libc = m.libc := by
   obtain ⟨hcap, hdl, hmul, hcm⟩ := new_guards dl cap grow exGe m (by rw [hnew]; simp)
   unfold ArraySized.new at hnew
   split at hnew
@@ -425,7 +425,7 @@ theorem new_ok (dl cap : Nat) (grow : Nat → Nat) (exGe : Nat → Bool) (m m' :
           have e2 := Mem.alloc_fst_true m.alloc.2 (by simpa using h2)
           have hM : CC_MAX_ELEMENTS < 2 ^ 64 := by decide
           refine ⟨⟨hdl, hcap, Nat.zero_le _, by simp [fresh], hmul⟩, by simp [abs], rfl, rfl, rfl,
-            by rw [e2.1, e1.1], by rw [e2.2.1, e1.2.1], hmul, Nat.lt_of_le_of_lt hmul hM⟩
+            by rw [e2.1, e1.1], by rw [e2.2.1, e1.2.1], hmul, Nat.lt_of_le_of_lt hmul hM, by rw [e2.2.2, e1.2.2]⟩
 
 /-- a refused construction yields no object and leaves the ledger as it was -/
 theorem new_refused (dl cap : Nat) (grow : Nat → Nat) (exGe : Nat → Bool) (m : Mem)
@@ -446,13 +446,13 @@ theorem new_refused (dl cap : Nat) (grow : Nat → Nat) (exGe : Nat → Bool) (m
         · have e2 := Mem.alloc_fst_false m.alloc.2 h2
           have f := free_of_pos m.alloc.2.alloc.2 (by omega)
           simp only [Bool.not_true, Bool.false_eq_true, if_false, Bool.not_false, if_true]
-          exact ⟨trivial, by rw [f.1, e2.1, e1.1]; omega, by rw [f.2, e2.2.1, e1.2.1]⟩
+          exact ⟨trivial, by rw [f.1, e2.1, e1.1]; omega, by rw [f.2.1, e2.2.1, e1.2.1], by rw [f.2.2, e2.2.2, e1.2.2]⟩
         · simp [hc, hd, h1, h2] at h
 
 /-- `destroy` releases the two blocks of an array -/
 theorem destroy_ledger (a : ArraySized) (m : Mem) (h : 2 ≤ m.live) :
-    (a.destroy m).live = m.live - 2 ∧ (a.destroy m).fault = m.fault := by
+    (a.destroy m).live = m.live - 2 ∧ (a.destroy m).fault = m.fault ∧ (a.destroy m).libc = m.libc := by
   unfold destroy
   have f1 := free_of_pos m (by omega)
   have f2 := free_of_pos m.free (by omega)
-  exact ⟨by rw [f2.1, f1.1]; omega, by rw [f2.2, f1.2]⟩
+  exact ⟨by rw [f2.1, f1.1]; omega, by rw [f2.2.1, f1.2.1], by rw [f2.2.2, f1.2.2]⟩
